@@ -110,6 +110,7 @@ func init() {
 type ctxKey string
 
 const driverKey ctxKey = "partrefs-driver"
+const slowKey ctxKey = "partrefs-slow-put"
 
 var bucket = storage.MustNewBucketName("partrefs")
 
